@@ -970,10 +970,127 @@ class _ProgressBar:
         return lambda *a, **kw: None
 
 
-def posterior_self(vc, D, attrs, methods=None):
-    """stub `self` carrying EVERY attribute RomcPosterior.__init__ sets (a body that reads one of them must not fall out of the subset):
-    the optimisation bounds left_lim / right_lim are case-split into None and symbolic (D,) arrays, surrogate_used into False / True
-    unless the contract fixes it; attributes the property does not speak about are Unmodelled."""
+class UsedBefore(Sym):
+    """State the object may carry from EARLIER calls (a cache / memo / lazily created container, or an optional scalar): its content is
+    arbitrary - possibly computed under another eps_cutoff.  Membership and truthiness are fresh symbolic booleans, a lookup gives a fresh
+    symbolic number (every such READ taints the path, see _taint), stores are accepted and do not taint; `optional` additionally lets the whole thing be None.  clear() / re-binding to an empty value is
+    what reset_eps_cutoff must do to it."""
+
+    def __init__(self, name, optional=False):
+        self.name, self.optional, self.cleared = name, optional, False
+        self.t = None
+
+    def _taint(self):
+        # the content is an OVER-APPROXIMATION (no representation invariant is known for it): whatever fails on this path from here on
+        # is a violation only if the one-object histories of the bounded stand-in replay it on the real code (pyvc/README, vc.taint)
+        cur().taint('arbitrary content of self.%s left by earlier calls' % self.name)
+
+    def _b(self, what):
+        self._taint()
+        return SBool(cur().fresh('%s_%s' % (self.name, what), B_))
+
+    def _v(self):
+        self._taint()
+        return SReal(cur().fresh(self.name + '_item', R_))
+
+    def _vc_is_none(self):
+        return self._b('is_none') if self.optional else False
+
+    def __contains__(self, key):
+        return bool(self._b('has_key')) if not self.cleared else False
+
+    def __bool__(self):
+        return bool(self._b('non_empty')) if not self.cleared else False
+
+    def __getitem__(self, key):
+        return self._v()
+
+    def get(self, key, default=None):
+        return self._v() if key in self else default
+
+    def __setitem__(self, key, v):
+        pass
+
+    def setdefault(self, key, v):
+        return self._v() if key in self else v
+
+    def pop(self, key, *d):
+        return self._v()
+
+    def clear(self):
+        self.cleared = True
+
+    def _vc_fresh_like(self, name):
+        return UsedBefore(self.name, self.optional)
+
+
+def _is_cleared(v):
+    return v is None or (isinstance(v, (dict, list, set)) and not v) or (isinstance(v, UsedBefore) and v.cleared)
+
+
+_init_cache = {}
+
+
+def init_attrs(spec, repo=None):
+    """[(name, rhs AST)] of the `self.name = rhs` statements of `path::Class.__init__`, read from the tree under analysis"""
+    import ast
+    from pyvc import instrument
+    loc = instrument.locate(spec + '.__init__', repo)
+    if loc.sha256 not in _init_cache:
+        out = []
+        for n in ast.walk(loc.node):
+            if isinstance(n, (ast.Assign, ast.AnnAssign)):
+                for t in (n.targets if isinstance(n, ast.Assign) else [n.target]):
+                    if isinstance(t, ast.Attribute) and isinstance(t.value, ast.Name) and t.value.id == 'self' and n.value is not None:
+                        out.append((t.attr, n.value))
+        _init_cache[loc.sha256] = out
+    return _init_cache[loc.sha256]
+
+
+def self_names_read(target, repo=None):
+    """attribute names of `self` that the analysed function reads (self.x, getattr/hasattr(self, 'x'))"""
+    import ast
+    from pyvc import instrument
+    loc = instrument.locate(target, repo)
+    names = set()
+    for n in ast.walk(loc.node):
+        if isinstance(n, ast.Attribute) and isinstance(n.value, ast.Name) and n.value.id == 'self':
+            names.add(n.attr)
+        if isinstance(n, ast.Call) and isinstance(n.func, ast.Name) and n.func.id in ('getattr', 'hasattr', 'setattr') and len(n.args) >= 2 \
+                and isinstance(n.args[0], ast.Name) and n.args[0].id == 'self' and isinstance(n.args[1], ast.Constant) and isinstance(n.args[1].value, str):
+            names.add(n.args[1].value)
+    cls_methods = set()
+    if loc.cls_node is not None:
+        cls_methods = {m.name for m in loc.cls_node.body if hasattr(m, 'name')}
+    return names - cls_methods
+
+
+def _unknown_attr(name, rhs):
+    """an attribute the tree's __init__ sets but this module has no model for: state that may have been filled by earlier calls"""
+    import ast
+    if isinstance(rhs, (ast.Dict, ast.List, ast.Set)) or (isinstance(rhs, ast.Call) and isinstance(rhs.func, ast.Name) and rhs.func.id in ('dict', 'list', 'set', 'OrderedDict', 'defaultdict')):
+        return UsedBefore(name)
+    if isinstance(rhs, ast.Constant) and rhs.value is None:
+        return UsedBefore(name, optional=True)
+    if isinstance(rhs, ast.Constant) and isinstance(rhs.value, bool):
+        return SBool(cur().fresh(name, B_))
+    if isinstance(rhs, ast.Constant) and isinstance(rhs.value, (int, float)):
+        return SReal(cur().fresh(name, R_))
+    return Unmodelled('self.' + name)
+
+
+POSTERIOR_KNOWN = ('regions', 'funcs', 'objectives_actual', 'objectives_surrogate', 'objectives_local', 'nuisance', 'surrogate_used', 'prior',
+                   'eps_filter', 'eps_region', 'eps_cutoff', 'left_lim', 'right_lim', 'dim', 'parallelize', 'partition', 'progress_bar')
+# of these, what the cut-off changes: eps_cutoff itself and the cached normalisation constant
+DEPENDS_ON_EPS_CUTOFF = ('eps_cutoff', 'partition')
+
+
+def posterior_self(vc, D, attrs, methods=None, target=None):
+    """stub `self` of a RomcPosterior that may have been USED BEFORE.  It carries every attribute the tree's __init__ sets (read mechanically
+    from the tree, so an attribute added by an edit is present too): the optimisation bounds left_lim / right_lim are case-split into None and
+    symbolic (D,) arrays, surrogate_used into False / True unless the contract fixes it, `partition` is None or a number left by an earlier
+    pdf() call; attributes the property does not speak about are Unmodelled; attributes this module does not know (or that the analysed function
+    creates lazily through getattr / hasattr) are UsedBefore state with arbitrary content."""
     bounds = vc.fork_values('bounds', ['none', 'given'])
     a = dict(regions=Unmodelled('self.regions'), funcs=Unmodelled('self.funcs'), objectives_actual=Unmodelled('self.objectives_actual'),
              objectives_surrogate=Unmodelled('self.objectives_surrogate'), objectives_local=Unmodelled('self.objectives_local'),
@@ -981,11 +1098,23 @@ def posterior_self(vc, D, attrs, methods=None):
              eps_filter=SReal(z3.Real('eps_filter')), eps_region=SReal(z3.Real('eps_region')), eps_cutoff=SReal(z3.Real('eps_cutoff')),
              left_lim=None if bounds == 'none' else SArr.fresh('left_lim', (D,), 'real'),
              right_lim=None if bounds == 'none' else SArr.fresh('right_lim', (D,), 'real'),
-             dim=SInt(D) if isinstance(D, z3.ExprRef) else D, parallelize=False, partition=None, progress_bar=_ProgressBar())
+             dim=SInt(D) if isinstance(D, z3.ExprRef) else D, parallelize=False, partition=UsedBefore('partition', optional=True), progress_bar=_ProgressBar())
     if 'surrogate_used' not in attrs:
         a['surrogate_used'] = vc.fork_values('surrogate_used', [False, True])
     a.update(attrs)
-    return make_object('RomcPosterior', attrs=a, methods=methods)
+    unknown = []
+    for name, rhs in init_attrs(POST + '::RomcPosterior', getattr(vc, 'repo', None)):
+        if name not in a:
+            a[name] = _unknown_attr(name, rhs)
+            unknown.append(name)
+    if target is not None:
+        for name in sorted(self_names_read(target, getattr(vc, 'repo', None))):
+            if name not in a and not (methods and name in methods):
+                a[name] = UsedBefore(name, optional=True)
+                unknown.append(name)
+    o = make_object('RomcPosterior', attrs=a, methods=methods)
+    vc._c19_unknown = unknown
+    return o
 
 
 def region_self(D, attrs=None, methods=None, without=()):
@@ -1058,7 +1187,7 @@ class _Counting(Contract):
                 return SBool(INr(i))
             return make_object('NDimBoundingBox', methods=dict(contains=contains))
         # class invariant of RomcPosterior: one objective and one region per accepted problem
-        s.self = posterior_self(vc, D, dict(funcs=Seq(n, func, 'funcs'), regions=Seq(n, region, 'regions'), eps_cutoff=SReal(eps)))
+        s.self = posterior_self(vc, D, dict(funcs=Seq(n, func, 'funcs'), regions=Seq(n, region, 'regions'), eps_cutoff=SReal(eps)), target=self.target)
         return s, (s.self, theta), {}
 
     def requires(self, s):
@@ -1162,7 +1291,7 @@ class PdfUnnormSinglePoint(Contract):
         prior = PriorStub(lambda row: same_point(row, D, lambda k: th0.at(k)), lambda: PR)
         s.self = posterior_self(vc, D, dict(prior=prior, surrogate_used=self.surrogate),
                                 methods=dict(_sum_over_indicators=counter(CNT_I, '_sum_over_indicators'),             # contract SumOverIndicators
-                                          _sum_over_regions_indicators=counter(CNT_RI, '_sum_over_regions_indicators')))   # contract SumOverRegionsIndicators
+                                          _sum_over_regions_indicators=counter(CNT_RI, '_sum_over_regions_indicators')), target=self.target)   # contract SumOverRegionsIndicators
         return s, (s.self, theta), {}
 
     def requires(self, s):
@@ -1175,6 +1304,50 @@ class PdfUnnormSinglePoint(Contract):
 
     def witness(self, vc, model, ob):
         return dict(function='_pdf_unnorm_single_point', surrogate_used=self.surrogate, dim=2)
+
+
+class ResetEpsCutoff(Contract):
+    """whole-state postcondition: after reset_eps_cutoff(e) the object is as a posterior constructed with cut-off e that has not been used yet, as far
+    as the cut-off matters: eps_cutoff = e, the cached normalisation constant is cleared, every attribute known to be independent of the cut-off
+    is the same object as before, and any OTHER state the tree's __init__ gives the object (caches added by an edit) is cleared"""
+    target = POST + '::RomcPosterior.reset_eps_cutoff'
+    prop = 'C19'
+    fin = 3
+
+    def setup(self, vc):
+        D = z3.Int('D')
+        vc.fin_bounds.append(D)
+        new = z3.Real('new_eps_cutoff')
+        o = posterior_self(vc, D, {}, target=self.target)
+        s = NS(D=D, new=new, obj=o, before=dict(o.__dict__), unknown=list(vc._c19_unknown))
+        return s, (o, SReal(new)), {}
+
+    def requires(self, s):
+        return [s.D >= 1]
+
+    def ensures(self, s, result):
+        o = s.obj
+        now = o.__dict__
+        part = now.get('partition', 'missing')
+        out = [('eps_cutoff is the new cut-off', _real(now['eps_cutoff']) == s.new if isinstance(now.get('eps_cutoff'), (SReal, SInt)) else z3.BoolVal(False)),
+               ('the cached normalisation constant is cleared', z3.BoolVal(_is_cleared(part))),
+               ('attributes that do not depend on the cut-off are untouched',
+                z3.BoolVal(all(now.get(k, 'missing') is s.before[k] for k in POSTERIOR_KNOWN if k not in DEPENDS_ON_EPS_CUTOFF)))]
+        other = [k for k in now if k not in POSTERIOR_KNOWN]
+        if not other:
+            return out
+        # State this module cannot classify (an attribute the unchanged tree does not have): demanding that it be cleared OVER-APPROXIMATES what
+        # depends on the cut-off (a memo of prior densities need not be cleared).  The exact clauses above are emitted first, un-tainted; this one
+        # is generated under a taint, so its refutation is a violation only when the one-object history replays a failing input natively.
+        vc = cur()
+        for nm, g in out:
+            vc.oblige('post[%s]' % nm, g)
+        vc.taint('state not known to this module (%s) is assumed to depend on eps_cutoff' % ', '.join(other))
+        return [('every other piece of state the object carries (possibly computed under the old cut-off) is cleared: %s' % ', '.join(other),
+                 z3.BoolVal(all(_is_cleared(now[k]) for k in other)))]
+
+    def witness(self, vc, model, ob):
+        return dict(function='history', dim=1)
 
 
 # ---------------------------------------------------------------- sample weights: python lists grown in loops
@@ -1340,7 +1513,7 @@ class WorkerComputeWeight(Contract):
         region = make_object('NDimBoundingBox', methods=dict(pdf=pdf))
         prior = PriorStub(at_draw, lambda: PJ(s.j))
         args = (SInt(z3.Int('i')), theta, region, prior, func, SReal(eps), SInt(n2))
-        return s, (posterior_self(vc, D, dict(prior=prior, eps_cutoff=SReal(eps))), args), {}
+        return s, (posterior_self(vc, D, dict(prior=prior, eps_cutoff=SReal(eps)), target=self.target), args), {}
 
     def requires(self, s):
         return [s.n2 >= 0, s.D >= 1]
@@ -1411,7 +1584,7 @@ class PosteriorSample(Contract):
                 return SReal(F2(i, s.j))
             return f
         prior = PriorStub(lambda row: same_point(row, D, lambda k: TH3(s.i, s.j, k)), lambda: P2(s.i, s.j))
-        s.self = posterior_self(vc, D, dict(regions=Seq(N, region, 'regions'), funcs=Seq(N, func, 'funcs'), prior=prior, eps_cutoff=SReal(eps), parallelize=False))
+        s.self = posterior_self(vc, D, dict(regions=Seq(N, region, 'regions'), funcs=Seq(N, func, 'funcs'), prior=prior, eps_cutoff=SReal(eps), parallelize=False), target=self.target)
         return s, (s.self, SInt(n2)), dict(seed=vc.fork_values('seed', [None, SInt(z3.Int('seed'))]))
 
     def requires(self, s):
@@ -1492,7 +1665,7 @@ CONTRACTS = ([SecureLimits(), ComputeVolume(), LemmaProdPositive(), Pdf()] + [In
              + [LemmaSampleInside(D) for D in DIMS]
              + [LineSearch('start-below'), LineSearch('any-start')] + [Build(D) for D in DIMS]
              + [SumOverIndicators(), SumOverRegions(), SumOverRegionsIndicators(), LemmaCountBounds(), PdfUnnormSinglePoint(False), PdfUnnormSinglePoint(True),
-                WorkerComputeWeight(), PosteriorSample()])
+                ResetEpsCutoff(), WorkerComputeWeight(), PosteriorSample()])
 
 TRUSTED_BASE = ['pyvc engine: proxies, loop cutting, numpy / builtins spec tables (real mode: floats are reals; math.isclose read as its documented formula)',
                 'numpy.dot = sum of products, numpy.prod = finite product, numpy.concatenate / transpose / broadcasting as in the spec table (sanity-tested)',
@@ -1560,11 +1733,11 @@ _replay_cache = {}
 def replay_refuted(cname, rf):
     """a refuted obligation: look for a failing input of the executable clause on the real code (bounded harness, first failure)"""
     from bounded import c19 as b
-    if any(k in cname for k in ('_pdf_unnorm_single_point', '_worker_compute_weight', 'RomcPosterior.sample', '_sum_over')):
+    if any(k in cname for k in ('_pdf_unnorm_single_point', '_worker_compute_weight', 'RomcPosterior.sample', '_sum_over', 'reset_eps_cutoff')):
         key = 'posterior:' + cname
         if key not in _replay_cache:
             fn = 'posterior'
-            for k in ('_pdf_unnorm_single_point', '_worker_compute_weight'):
+            for k in ('_pdf_unnorm_single_point', '_worker_compute_weight', 'reset_eps_cutoff'):
                 if k in cname:
                     fn = k
             if 'RomcPosterior.sample' in cname:
